@@ -10,4 +10,6 @@ CONSTANTS
   Cap = 2
   Buffered = TRUE
   Gaps = "all"
+  KeepData = TRUE
+  ExternalProg <- NoExternal
   Emit = TRUE
